@@ -36,7 +36,7 @@ Print Assumptions C19_restart_restores.
    height i answers with the i-th group below count and with nothing at or above it, every listed group
    is found by id. *)
 Theorem C19_inv_implies_property : forall g0, genesis_ok g0 -> forall s, InvW g0 s -> Spec g0 s.
-Proof. intros g0 G s. exact (inv_spec g0 G SqSub s). Qed.
+Proof. exact invw_spec. Qed.
 Print Assumptions C19_inv_implies_property.
 
 (* A restart after any state satisfying the full invariant gives back exactly that state. *)
